@@ -143,7 +143,7 @@ func (s *stream) ReassembledSG(sg reassembly.ScatterGather, ac reassembly.Assemb
 	_, _, _, skip := sg.Info()
 	if hs.inFO && skip != 0 && ac != nil {
 		if seen := ac.GetCaptureInfo().Timestamp; !seen.Before(hs.cutoff) {
-			hs.fail("age-flush-released-newer-data", fmt.Sprintf("FlushCloseOlderThan released data seen at +%v with skip %d although the cut-off is +%v", seen.Sub(t0), skip, hs.cutoff.Sub(t0)))
+			hs.fail("age-flush-released-newer-data", fmt.Sprintf("FlushCloseOlderThan released data seen at +%v with skip %d although the cut-off is +%v", seen.Sub(hs.t0), skip, hs.cutoff.Sub(hs.t0)))
 		}
 	}
 	if hs.keep {
@@ -165,6 +165,7 @@ func (s *stream) ReassemblyComplete(ac reassembly.AssemblerContext) bool {
 }
 
 type hist struct {
+	t0           time.Time
 	keep, remove bool
 	streams      []*stream
 	viol         string
@@ -181,6 +182,7 @@ func (hs *hist) fail(k, w string) {
 }
 
 type harness struct {
+	t0     time.Time // start time of the current history: time never goes backwards on a recycled instance
 	pool   *reassembly.StreamPool
 	asm    *reassembly.Assembler
 	cur    *hist
@@ -204,7 +206,7 @@ func (h *harness) reset() {
 	h.resets++
 }
 
-var t0 = time.Unix(1_000_000, 0)
+var epoch = time.Unix(1_000_000, 0)
 
 func (h *harness) payload(a, b int) []byte {
 	if h.bufs == nil {
@@ -229,6 +231,12 @@ func (a *actx) GetCaptureInfo() gopacket.CaptureInfo { return a.ci }
 func (h *harness) run(f *family, lim [2]int, beh int, seq []int) (hs *hist) {
 	hs = &hist{keep: beh&1 != 0, remove: beh&2 == 0}
 	h.cur = hs
+	if h.t0.IsZero() {
+		h.t0 = epoch
+	}
+	h.t0 = h.t0.Add(time.Duration(len(seq)+3) * time.Second)
+	t0 := h.t0
+	hs.t0 = t0
 	h.asm.MaxBufferedPagesPerConnection, h.asm.MaxBufferedPagesTotal = lim[0], lim[1]
 	h.ctr++
 	defer func() {
@@ -349,6 +357,14 @@ func savedPages(p *reassembly.StreamPool) int {
 	return n
 }
 
+func (hs *hist) summary() string {
+	s := hs.viol
+	for _, st := range hs.streams {
+		s += fmt.Sprintf("|%d,%d,%v", st.completes, st.deliv, st.after)
+	}
+	return s
+}
+
 func describe(f *family, lim [2]int, beh int, seq []int) map[string]any {
 	var ev []string
 	for _, i := range seq {
@@ -394,6 +410,20 @@ func main() {
 		f, _ := os.Create(pf)
 		pprof.StartCPUProfile(f)
 	}
+	var curF *family
+	var curLim [2]int
+	var curBeh int
+	var hangLocals []*report.Local
+	statex.OnHang = func(seq []int) {
+		r.Violation("c11|reassembly|hang|a history does not terminate", fmt.Sprintf("no progress for %v on one history", statex.HangAfter), 0, describe(curF, curLim, curBeh, seq))
+		for _, l := range hangLocals {
+			r.MergeLocal(l)
+		}
+		r.Exhaustive = false
+		r.Coverage["states"], r.Coverage["transitions"], r.Coverage["traces_validated_against_impl"] = 1, 1, 0
+		r.Coverage["samples"] = []any{describe(curF, curLim, curBeh, seq)}
+		r.Finish()
+	}
 	workers := runtime.NumCPU()
 	hs := make([]*harness, workers)
 	locals := make([]*report.Local, workers)
@@ -404,6 +434,9 @@ func main() {
 		locals[i] = report.NewLocal()
 		outc[i] = map[string]struct{}{}
 	}
+	hangLocals = locals
+	diffCtr := make([]int64, workers)
+	diffs := make([]int64, workers)
 	var total, trans int64
 	behs := []int{0, 1, 2}
 	if r.Thorough() {
@@ -417,6 +450,7 @@ func main() {
 		for _, lim := range f.limits {
 			for _, beh := range behs {
 				lim, beh := lim, beh
+				curF, curLim, curBeh = f, lim, beh
 				depth := f.depth
 				if !r.Thorough() && f.name == "one-direction" && (lim == [2]int{1, 0} || (beh&1 != 0 && lim == [2]int{0, 2})) {
 					continue // quick tier: fewer limit settings for the largest family
@@ -432,6 +466,17 @@ func main() {
 				}
 				cnt, complete := statex.Sequences(len(f.alpha), depth, workers, r.Expired, func(w int, seq []int) {
 					h := hs[w].run(f, lim, beh, seq)
+					diffCtr[w]++
+					if diffCtr[w]%4099 == 0 {
+						fresh := &harness{}
+						fresh.reset()
+						if h2 := fresh.run(f, lim, beh, seq); h2.summary() != h.summary() {
+							locals[w].Add("c11|reassembly|differential|recycled assembler behaves differently from a fresh one", int64(len(seq)), func() (string, any) {
+								return fmt.Sprintf("recycled: %q fresh: %q", h.summary(), h2.summary()), describe(f, lim, beh, seq)
+							})
+						}
+						diffs[w]++
+					}
 					nc, nd := 0, 0
 					for _, s := range h.streams {
 						nc += s.completes
@@ -473,6 +518,11 @@ func main() {
 	r.Coverage["families"] = per
 	r.Coverage["distinct_outcomes"] = len(out)
 	r.Coverage["instance_resets"] = resets
+	var nd int64
+	for _, d := range diffs {
+		nd += d
+	}
+	r.Coverage["histories_rerun_on_fresh_instance_identical"] = nd
 	r.Coverage["samples"] = samples
 	r.Coverage["explanation"] = "reassembly (stream behaviours: KeepFrom on/off x accepts/declines removal): every history of the stated length over each family's alphabet (segments of one or several connections/directions, RST, age flushes with cut-offs before/between/after the arrivals, FlushAll) followed by a final FlushAll runs on the real assembler for every page-limit setting; a monitor using injected read-only accessors checks after every step: completion callback at most once and no data after it; page limits exceeded by at most the pages of the packet in hand; FlushCloseOlderThan leaves no connection waiting on data older than the cut-off and forces out no data newer than it; after FlushAll every stream completed exactly once, the pool is empty and no page is in use."
 	r.Assumptions = []string{"accessors read pool/page-cache private state without modifying it", "recycled assembler: verified clean (empty pool, zero pages) after every history, replaced otherwise"}
